@@ -64,7 +64,7 @@ class C15(Check):
                    'frames fit the prefix size (len < 2**(8*prefix_size))']
     ANCHORS = ['rxsci/framing/line.py', 'rxsci/framing/length_prefix.py']
     REQUIRED_TAGS = ['large-frames-of-exactly-the-same-size', 'reentrant-consumer', 'item-is-a-framed-batch-cut-on-its-record-boundaries', 'line', 'lp1', 'lp2', 'lp4', 'lp8', 'little', 'big', 'empties', 'trunc',
-                     'cut-in-prefix', 'cut-in-frame', 'empty-list', 'empty-item', 'stream>64KiB', 'chunks-as-bytearray', 'chunks-as-memoryview']
+                     'cut-in-prefix', 'cut-in-frame', 'empty-list', 'empty-item', 'stream>64KiB', 'chunks-as-bytearray', 'chunks-as-memoryview', 'items-as-str-subclass-instances']
 
     REQUIRED_OBSERVED = ['triples_of_staggered_subscriptions', 'bytes_like_runs']
 
@@ -240,6 +240,17 @@ class C15(Check):
             return out.fail('frame-output-not-the-framed-items', got=stream)
         out.observed['frames'] += len(framed.out)
 
+        if kind == 'line' and items and len(stream) <= 65536:
+            # the same text as str SUBCLASS instances (a str subclass whose str() / format() / repr() say something else than its
+            # text; members of a str-mixin Enum): a line is the item's text
+            from ..common import LoudStr, str_enum_members
+            for how, alt_items in (('str-subclass', [LoudStr(i) for i in items]), ('str-enum', str_enum_members(items))):
+                g = subscribe(rx.from_(alt_items).pipe(fr), Snap())
+                out.observed['framings_of_str_subclass_items'] += 1
+                if g.err is not None or not g.done or ''.join(str.__str__(x) for x in g.out) != stream:
+                    return out.fail('frame-of-%s-items-differs-from-the-frame-of-their-text' % how, error=repr(g.err), want=stream[:200],
+                                    got=''.join(str.__str__(x) for x in g.out if isinstance(x, str))[:200])
+            out.tags.append('items-as-str-subclass-instances')
         trunc = case['trunc']
         data = stream if trunc is None else stream[:trunc]
         cuts = [c for c in case['cuts'] if 0 < c < len(data)]
